@@ -1,7 +1,7 @@
 (* C05 -- serialization always emits well-formed JSON that denotes the serialized value.
    Statements only. *)
 From Coq Require Import List NArith Arith Bool.
-From SonicV Require Import Base.Blocks Model.Escape Model.TablesDefs Model.TablesOk Model.Pretty Model.SerRoundTrip Gen.Tables.
+From SonicV Require Import Base.Blocks Model.Escape Model.TablesDefs Model.TablesOk Model.Pretty Model.SerRoundTrip Gen.Tables Spec.Ref Model.EscRoundTrip.
 Import ListNotations.
 Local Close Scope N_scope.
 Local Open Scope nat_scope.
@@ -39,3 +39,9 @@ Proof.
   intros scalar key ps pas pk pak H1 H2 H3 H4 v.
   exact (parse_print scalar key ps pas pk pak H1 H2 H3 H4 v).
 Qed.
+
+(* what the escaper writes for ANY byte string, the reference string decoder reads back as that
+   string (and reports an escape exactly when one was written), whatever follows the closing quote *)
+Theorem escaped_string_decodes_back : forall s fuel rest, length s < fuel ->
+  Ref.str_body true fuel (escape s ++ 34%N :: rest) = Some (s, existsb need_spec s, rest).
+Proof. exact decode_escape. Qed.
